@@ -127,6 +127,7 @@ fn random_case(s: &str, r: &mut Rng) -> String {
 
 pub fn render_config(p: &Project, r: &mut Rng) -> String {
     let mut s = String::new();
+    let crlf = r.chance(1, 6);
     if r.chance(1, 2) {
         s.push_str("# project config\n");
     }
@@ -162,12 +163,15 @@ pub fn render_config(p: &Project, r: &mut Rng) -> String {
         s.push(':');
         let multiline = r.chance(1, 2);
         for (i, e) in t.entries.iter().enumerate() {
+            if multiline && i > 0 && r.chance(1, 6) {
+                s.push_str("\n    # next file");
+            }
             s.push_str(if multiline { "\n    " } else { " " });
             s.push_str(&format!("\"{}\"", e.file));
             if let Some((k, names)) = &e.filter {
                 s.push_str(&format!(" {k} {{"));
                 let list: Vec<String> = names.iter().map(|n| format!("\"{n}\"")).collect();
-                s.push_str(&list.join(", "));
+                s.push_str(&list.join(if multiline && r.chance(1, 4) { ",\n        " } else { ", " }));
                 if r.chance(1, 6) {
                     s.push(',');
                 }
@@ -181,6 +185,9 @@ pub fn render_config(p: &Project, r: &mut Rng) -> String {
         if r.chance(1, 2) {
             s.push('\n');
         }
+    }
+    if crlf {
+        s = s.replace('\n', "\r\n");
     }
     s
 }
